@@ -1,4 +1,4 @@
-import NimaVerif.Model.Edit
+import NimaVerif.Model.MappingSpec
 /-!
 Helper lemmas shared by C09 and C14: the `EditM` monad unfolded, and what the by-identity updates
 `updBind` / `updSet` do to the lists the lookups read (`findBinding`, `inheritMentions`, names).
@@ -58,7 +58,6 @@ theorem updSetL_append (sid : Nat) (f : Node → Node) (xs ys : List Node) :
 
 /-! ### what `updBind` keeps: kind, identity, name of every item -/
 
-def Node.isEntry : Node → Bool | .entry .. => true | _ => false
 
 @[simp] theorem updBind_isBind (id : Nat) (v n : Node) : (updBind id v n).isBind = n.isBind := by
   cases n with
